@@ -9,7 +9,7 @@ ID = "C17"
 LEVEL = "exploration"
 TECHNIQUE = "exhaustive small (b,t,n) grid + Hypothesis-generated configurations against a step-counting model and numpy's SeedSequence.spawn as reference"
 RULE = (
-    "exhaustive b<=6,t<=4,n<=5 with a counting MCMC model; generated b in 0..12 (also 100, 1000), t in 1..6 (also 10, 25), n in 1..8 (also 20, 100), seeds in {0, small, up to 2^63}, "
+    "exhaustive b<=6,t<=4,n<=5 with a counting MCMC model; generated b in 0..12 (also 100, 1000), t in 1..6 (also 10, 25), n in 1..8 (also 20, 100, 257, 600, 1025), seeds in {0, small, up to 2^63}, "
     "n_chains 1..6 with two chain indices; a counting VI model; the real SparseDrugCombo sampler in 1 of 8 cases. "
     "Non-trivial = b>0 and t>1 and n_chains>1 (exhaustive grid: b>0 and t>1). distinct = distinct case JSON."
 )
@@ -43,7 +43,7 @@ def _case(draw):
         "kind": kind,
         "b": draw(st.one_of(st.integers(0, 12), st.sampled_from([0, 1, 100, 1000]))),
         "t": draw(st.one_of(st.integers(1, 6), st.sampled_from([1, 10, 25]))),
-        "n": draw(st.one_of(st.integers(1, 8), st.sampled_from([1, 20, 100]))),
+        "n": draw(st.one_of(st.integers(1, 8), st.sampled_from([1, 20, 100, 257, 600, 1025]))),
         "seed": seed,
         "n_chains": n_chains,
         "chain": chain,
